@@ -10,7 +10,7 @@ ToSet(s) == {s[i] : i \in 1..Len(s)}
 TreesC == TreesJ
 
 SubsC == {"s1", "s2"}
-LisC == {"r1", "r2", "p1"}
+LisC == {"r1", "r2"}   \* model checking / replay graph: two OnReorg listeners (OnPoolChange: Leg T)
 NoSubs == {}
 
 StateRec == [t |-> t, blk |-> blk, sta |-> sta, best |-> best, mem |-> mem, pc |-> pc, ret |-> ret,
